@@ -135,3 +135,21 @@ contract(DISC + "_DiscoverProtocol.__init__",
                   "starts_empty": "len(self._discovered_ips) == 0 and len(self.tasks) == 0",
                   "settings": "self._target == target and self._discovery_packets == discovery_packets"},
          notes="C18: the de-duplication state belongs to one discovery run (a new protocol object per run starts with empty sets of its own)")
+
+
+# ---- C17: discover_single reports the device that answered the host, whatever spelling of the host was given ---------------------
+contract(DISC + "Discover.discover",
+         params={"target": "str"},
+         rtype="list:obj:msmart.base_device.Device",
+         emits={"discover_target": "target", "discover_result": "result"},
+         raises={},
+         assumed="orchestration over the event loop (datagram endpoint, sleep, gather of the per-reply tasks); the per-reply work "
+                 "(_DiscoverProtocol.*, _get_device*) is verified piece by piece, this call-site view only says that a list of devices comes back")
+
+contract(DISC + "Discover.discover_single",
+         params={"host": "str"},
+         raises={},
+         post_let={"T": "events('discover_target')", "R": "events('discover_result')"},
+         ensures={"one_scan_of_the_given_host": "len(T) == 1 and T[0] == host",
+                  "none_iff_nobody_answered": "(result is None) == (len(R[0]) == 0)",
+                  "first_answer_is_reported": "implies(len(R[0]) > 0, same_object(result, R[0][0]))"})
